@@ -240,6 +240,122 @@ def emitted(kind, old_parts, new_parts):
     return cmds
 
 
+# ---------------------------------------------------------------- huawei: global `vlan N` blocks next to `vlan batch` lines (vlan_diff)
+VD = "huawei:vlan_diff:batch+blocks"
+VD_HW = "Huawei CE6870"
+BLOCK_STATES = ["absent", "empty", "named"]      # no `vlan N` block / `vlan N` without children / `vlan N` with a `name` line
+
+
+def vd_text(batch_parts, blocks):
+    rows = ["vlan batch %s" % p for p in batch_parts]
+    for n, st in sorted(blocks.items(), key=lambda x: int(x[0])):
+        if st == "empty":
+            rows.append("vlan %s" % n)
+        elif st == "named":
+            rows += ["vlan %s" % n, " name V%s" % n]
+    return "\n".join(rows) + ("\n" if rows else "")
+
+
+def vd_set(batch_parts, blocks):
+    """the VLANs that exist on the device: those of the batch lines and those with a global block"""
+    s = set()
+    for p in batch_parts:
+        s |= parse_list("huawei", p)
+    return s | set(int(n) for n, st in blocks.items() if st != "absent")
+
+
+def vd_emitted(case):
+    from annet import patching, tabparser
+    hw, rb, fm = _context(VD_HW)
+    old = tabparser.parse_to_tree(vd_text(case["old_lines"], case["old_blocks"]), fm.split)
+    new = tabparser.parse_to_tree(vd_text(case["new_lines"], case["new_blocks"]), fm.split)
+    diff = patching.make_diff(old, new, rb, [])
+    pt = patching.make_patch(pre=patching.make_pre(diff), rb=rb, hw=hw, add_comments=False)
+    return [tuple(p) for p in fm.cmd_paths(pt)]
+
+
+def vd_simulate(paths, s_old):
+    """device semantics: `vlan batch L` creates, `undo vlan batch L` deletes the listed VLANs, entering `vlan N` creates N,
+    `undo vlan N` deletes VLAN N from the device altogether (batch membership included); lines inside a vlan block
+    (name ...) do not change the set"""
+    cur = set(s_old)
+    trace = []
+    for path in paths:
+        if len(path) > 1:
+            if re.fullmatch(r"vlan \d+", path[0]):
+                continue
+            raise ValueError(" / ".join(path))
+        c = " ".join(path[0].split())
+        if c.startswith("undo vlan batch "):
+            l = parse_list("huawei", c[len("undo vlan batch "):])
+            eff = "remove"
+        elif c.startswith("vlan batch "):
+            l = parse_list("huawei", c[len("vlan batch "):])
+            eff = "add"
+        elif re.fullmatch(r"undo vlan \d+( to \d+)?", c):
+            l = parse_list("huawei", c[len("undo vlan "):])
+            eff = "undo-vlan"
+        elif re.fullmatch(r"vlan \d+", c):
+            l = {int(c.split()[1])}
+            eff = "add"
+        else:
+            raise ValueError(c)
+        if l is None:
+            raise ValueError(c)
+        cur = cur | l if eff == "add" else cur - l
+        trace.append((c, eff, set(cur)))
+    return trace
+
+
+def check_vlan_diff(case):
+    s_old = vd_set(case["old_lines"], case["old_blocks"])
+    s_new = vd_set(case["new_lines"], case["new_blocks"])
+    kept = s_old & s_new
+    expected = dict(final=sorted(s_new), never_removed=sorted(kept))
+    try:
+        paths = vd_emitted(case)
+    except Exception as e:
+        return False, key_of(VD, "exception"), "make_patch raises", expected, "%s: %s" % (type(e).__name__, e)
+    cmds = [" / ".join(p) for p in paths]
+    try:
+        trace = vd_simulate(paths, s_old)
+    except ValueError as e:
+        return False, key_of(VD, "unknown-command"), "a command the device semantics of the statement does not know: %r" % str(e), expected, cmds
+    actual = dict(commands=cmds, final=sorted(trace[-1][2] if trace else s_old))
+    for (c, eff, after) in trace:
+        if not kept <= after:
+            actual["lost_after"] = c
+            actual["lost"] = sorted(kept - after)
+            cls = "undo-vlan-wipes-kept-vlan" if eff == "undo-vlan" else "transient-removal"
+            return (False, key_of(VD, cls), "VLANs %s present in both configs are deleted by %r" % (sorted(kept - after), c), expected, actual)
+    if (trace[-1][2] if trace else s_old) != s_new:
+        return False, key_of(VD, "final-set"), "executing the commands on S_old does not give S_new", expected, actual
+    return True, None, None, expected, actual
+
+
+def vd_cases(tier):
+    """`vlan batch` over 1..3 lines in old and new (all pairs of subsets x all splittings of a small universe) x one VLAN N that
+    is in the batch before and after x every (old, new) state of its global block except absent/absent; thorough also two
+    such N at once"""
+    universe = [2, 3, 10, 11] if tier == "quick" else UNIVERSE5
+    vs = variants("huawei:multi:vlan-batch", universe, 3)
+    for o in vs:
+        so = set_of_parts("huawei:multi:vlan-batch", o)
+        for n in vs:
+            both = sorted(so & set_of_parts("huawei:multi:vlan-batch", n))
+            for x in both:
+                for a in BLOCK_STATES:
+                    for b in BLOCK_STATES:
+                        if a == b == "absent":
+                            continue
+                        yield dict(kind=VD, old_lines=list(o), new_lines=list(n), old_blocks={str(x): a}, new_blocks={str(x): b})
+            if tier != "quick" and len(both) >= 2:
+                x, y = both[0], both[-1]
+                for (a, b) in (("named", "absent"), ("empty", "absent"), ("named", "empty"), ("absent", "named")):
+                    yield dict(kind=VD, old_lines=list(o), new_lines=list(n), old_blocks={str(x): a, str(y): a},
+                               new_blocks={str(x): b, str(y): b})
+
+
 def key_of(kind, cls):
     vendor, logic, _ = kind.split(":")
     return "bounded:C11:%s:%s:%s" % (vendor, logic, cls)
@@ -250,6 +366,8 @@ def check_case(case):
     kind = case["kind"]
     if kind == "lib":
         return check_lib(case)
+    if kind == VD:
+        return check_vlan_diff(case)
     s_old = set_of_parts(kind, case["old_lines"])
     s_new = set_of_parts(kind, case["new_lines"])
     kept = s_old & s_new
@@ -473,6 +591,11 @@ def cases(tier, seed, part, nparts):
                     i += 1
                     if i % nparts == part:
                         yield dict(kind=kind, old_lines=list(o[(p // stride) % len(o)]), new_lines=list(n[(p // (5 * stride)) % len(n)]))
+    # (V) huawei vlan_diff: global `vlan N` blocks next to the `vlan batch` lines
+    for c in vd_cases(tier):
+        i += 1
+        if i % nparts == part:
+            yield c
     # (R) seeded random subsets of 1..4094
     nrand = 100 if tier == "quick" else 4000
     for kind in kinds:
@@ -502,6 +625,10 @@ def run(tier="quick", seed=0, part=0, nparts=1):
         if case["kind"] == "lib":
             if len(runs(case["vlans"])) >= 2:
                 nontrivial.add(h(case))
+        elif case["kind"] == VD:
+            # a block of a VLAN that stays in the batch changes, and the batch spans >= 2 lines on some side
+            if case["old_blocks"] != case["new_blocks"] and max(len(case["old_lines"]), len(case["new_lines"])) >= 2:
+                nontrivial.add(h(case))
         else:
             so = set_of_parts(case["kind"], case["old_lines"])
             sn = set_of_parts(case["kind"], case["new_lines"])
@@ -528,9 +655,13 @@ def run(tier="quick", seed=0, part=0, nparts=1):
         bound = ("subsets of an 8-element universe, 1..4 lines; every splitting on 8 elements (huawei trunk), 7 (2 kinds), 6 (rest); "
                  "4000 random sets per kind to 4094")
     return dict(evaluations=ev, nontrivial=sorted(nontrivial), failures=failures, samples=samples,
-                rule="10 rule kinds (huawei multi_all x3 [trunk allow-pass, hybrid tagged, hybrid untagged], multi [vlan batch], "
+                rule="10 rule kinds + vlan_diff (huawei multi_all x3 [trunk allow-pass, hybrid tagged, hybrid untagged], multi [vlan batch], "
                      "single [stp instance]; cisco+nexus swtrunk, cisco+nexus `vlan` simple, cisco vlan group simple) through the shipped "
                      "rulebooks and make_diff/make_pre/make_patch/cmd_paths (cisco trunk: empty set also as the line `none`). " + scope +
+                     "(V) huawei vlan_diff: `vlan batch` over 1..3 lines before and after (all pairs x splittings of subsets of %s) x a VLAN N kept "
+                     "in the batch x every (old,new) state {absent, empty, with name} of its global `vlan N` block%s, device set = batch + "
+                     "blocks, `undo vlan N` deletes N altogether; " % ("{2,3,10,11}" if tier == "quick" else "{2,3,4,10,11}",
+                                                                        "" if tier == "quick" else ", also two such N at once") +
                      "(R) seeded random sets of 1..4094 (1..40 runs, new = old with runs dropped/shrunk/added, or unrelated; 1..4 lines); "
                      "(L) lib collapse/expand on all subsets + random sets. non-trivial = S_old != S_new and S_old & S_new non-empty "
                      "(lib: >= 2 runs); distinct by (kind, old lines, new lines)",
